@@ -10,18 +10,20 @@ import (
 
 // Cfg bounds and steers the generators.
 type Cfg struct {
-	Qual       string // table name that must qualify columns (join paths), "" = unqualified
-	NoStruct   bool   // struct form unavailable
-	NoGroup    bool
-	MaxDepth   int  // tree depth (default 3)
-	MaxUnits   int  // calls per chain (default 5)
-	MaxID      int  // ids used by the primary-key forms are 1..MaxID+1
-	LeadingOr  bool // the first effective call may be Or
-	EmptyIn    bool // IN lists may be empty (rendered IN (NULL) by gorm)
-	NoPK       bool // no primary-key forms (conditions must not mention id)
-	NoNeutral  bool // no Session{} / WithContext between calls, no Clauses(expr)
-	SkipClass  func(class string) bool
-	OnExcluded func(class string)
+	Qual         string // table name that must qualify columns (join paths), "" = unqualified
+	NoStruct     bool   // struct form unavailable
+	NoGroup      bool
+	MaxDepth     int  // tree depth (default 3)
+	MaxUnits     int  // calls per chain (default 5)
+	MaxID        int  // ids used by the primary-key forms are 1..MaxID+1
+	LeadingOr    bool // the first effective call may be Or
+	EmptyIn      bool // IN lists may be empty (rendered IN (NULL) by gorm)
+	NoPK         bool // no primary-key forms (conditions must not mention id)
+	NoNeutral    bool // no Session{} / WithContext between calls, no Clauses(expr)
+	NoNullInList bool // no NULL elements in IN lists
+	SoftCol      bool // conditions may name the soft-delete column itself (IS [NOT] NULL; real name: SoftColName)
+	SkipClass    func(class string) bool
+	OnExcluded   func(class string)
 }
 
 func (c Cfg) depth() int {
@@ -57,11 +59,11 @@ var (
 	// word of their own or inside a word. They are values only (compared with
 	// = <> < > IN LIKE); in literal renderings they put the letters before,
 	// between and behind the real keywords of a raw condition.
-	kwDom = []string{"or", "and", "sand", "order", "b and c"}
+	kwDom = []string{"or", "and", "sand", "order", "b and c", "é", "ß", "日本"}
 	// compared values may also be upper case (rows stay lower case, so that
 	// SQLite's case-insensitive LIKE cannot differ from the evaluator)
-	kwValDom = []string{"or", "and", "sand", "order", "b and c", "x OR y", "AND"}
-	likeDom  = []string{"a%", "%b", "_", "%", "ab", "", "a_", "%a%", "_b", "b", "%or%", "%and", "s_nd", "or%", "b and%"}
+	kwValDom = []string{"or", "and", "sand", "order", "b and c", "x OR y", "AND", "é", "ß", "日本", "é"}
+	likeDom  = []string{"a%", "%b", "_", "%", "ab", "", "a_", "%a%", "_b", "b", "%or%", "%and", "s_nd", "or%", "b and%", "日_", "%é"}
 )
 
 // rowText draws a stored text value, valText a compared one.
@@ -116,7 +118,17 @@ func genVal(x g, col string) Val {
 	return IntV(x.n(5)) // 4 matches nothing
 }
 
+// SoftColName is the real name of the soft-delete column for the units generated
+// next (set by the property before it draws a case; one goroutine per process).
+var SoftColName = "deleted_at"
+
 func genAtom(x g, cfg Cfg) *Node {
+	if cfg.SoftCol && x.pct(5) {
+		if x.pct(60) {
+			return IsNull(SoftCol)
+		}
+		return NotNull(SoftCol)
+	}
 	col := DataCols[x.n(len(DataCols))]
 	ops := []Op{OpEq, OpEq, OpNe, OpNe, OpLt, OpGt, OpGe, OpLe, OpIn, OpIn}
 	if IsText(col) {
@@ -151,6 +163,18 @@ func genList(x g, col string, cfg Cfg) []Val {
 	vs := make([]Val, k)
 	for i := range vs {
 		vs[i] = genVal(x, col)
+	}
+	if !cfg.NoNullInList && x.pct(12) {
+		// NULL elements: a list of exactly one NULL, {NULL, NULL}, or a value and a NULL
+		null := Val{Str: IsText(col), Null: true}
+		switch x.n(3) {
+		case 0:
+			vs = []Val{null}
+		case 1:
+			vs = []Val{null, null}
+		default:
+			vs = []Val{genVal(x, col), null}
+		}
 	}
 	return vs
 }
@@ -242,6 +266,12 @@ func genMapUnit(x g, cfg Cfg) *Unit {
 			node = Atom(col, OpEq, v)
 		}
 		u.Members = append(u.Members, node)
+	}
+	if cfg.SoftCol && x.pct(8) {
+		// a typed condition on the soft-delete column itself: deleted_at = nil
+		m[cfg.key(SoftColName)] = nil
+		u.Members = append(u.Members, IsNull(SoftCol))
+		u.Feats["cond:soft-delete-column"] = true
 	}
 	// members in gorm's order (sorted keys) - irrelevant for the meaning
 	u.Tree = And(u.Members...)
@@ -438,6 +468,15 @@ func genColValue(x g, cfg Cfg) *Unit {
 	case c < 4:
 		vs := genList(x, col, cfg)
 		arg = goSlice(x, vs, IsText(col))
+		switch arg.(type) {
+		case []int, []string, []interface{}:
+		default: // Where("col", list) becomes a clause.Eq, which expands only its listed slice types
+			vals := make([]interface{}, len(vs))
+			for i, v := range vs {
+				vals[i] = v.Go()
+			}
+			arg = vals
+		}
 		u.Tree = In(col, vs...)
 		u.Feats["colvalue:slice"] = true
 	case c < 6:
